@@ -7,6 +7,7 @@
 package main
 
 import (
+	"runtime/pprof"
 	"encoding/json"
 	"flag"
 	"fmt"
@@ -181,8 +182,15 @@ func cmdRun(args []string) {
 	maxViol := fs.Int("maxviol", 5, "stop after this many distinct violations")
 	shrinkTests := fs.Int("shrink", 1500, "maximum shrink attempts per violation")
 	onlySim := fs.String("sim", "", "restrict to one simulation")
+	cpuProf := fs.String("cpuprofile", "", "write a CPU profile here (developer aid)")
 	dumpTape := fs.String("dumptape", "", "write the planned tape of each run here before executing it (process-level failure attribution)")
 	fs.Parse(args)
+	if *cpuProf != "" {
+		if pf, err := os.Create(*cpuProf); err == nil {
+			pprof.StartCPUProfile(pf)
+			defer pprof.StopCPUProfile()
+		}
+	}
 	if _, ok := registry[*prop]; !ok {
 		fmt.Fprintf(os.Stderr, "simworker: no simulation registered for %q\n", *prop)
 		os.Exit(2)
